@@ -257,3 +257,29 @@ Proof.
   apply json_unit_roundtrip;
     [apply names_faithfulb_sound|apply factors_storedb_sound|apply one_storedb_sound|apply keys_uniqueb_sound|apply stored_okb_sound]; assumption.
 Qed.
+
+(* ---------------------------------------------------------------- pickle / copy *)
+(* a document whose key is stored is answered with the stored object and changes nothing -- whatever names it carries
+   (a pickle taken before the object was named included) *)
+Theorem pload_known r d h x : NoDupK (p_tbl r) -> nth_error (p_tbl r) h = Some x -> ukey (pd_args d) = ukey x ->
+  pload true r d = (r, h).
+Proof. intros Hn Hh Hk. unfold pload. rewrite (find_key_nth (p_tbl r) Hn h x (pd_args d) Hh Hk). reflexivity. Qed.
+
+Theorem pload_pdump r h d : NoDupK (p_tbl r) -> pdump r h = Some d -> pload true r d = (r, h).
+Proof.
+  intros Hn Hd. unfold pdump in Hd. destruct (nth_error (p_tbl r) h) as [x|] eqn:Ex; [|discriminate].
+  destruct (nth_error (p_names r) h) as [ns|]; [|discriminate]. injection Hd as <-.
+  apply (pload_known r _ h x Hn Ex). reflexivity.
+Qed.
+
+Lemma pname_tbl r h n : p_tbl (pname r h n) = p_tbl r.
+Proof. unfold pname. destruct (nth_error (p_names r) h); reflexivity. Qed.
+
+(* the history pickle; name; unpickle: the named registry is unchanged *)
+Theorem pload_stale r h d n : NoDupK (p_tbl r) -> pdump r h = Some d ->
+  pload true (pname r h n) d = (pname r h n, h).
+Proof.
+  intros Hn Hd. unfold pdump in Hd. destruct (nth_error (p_tbl r) h) as [x|] eqn:Ex; [|discriminate].
+  destruct (nth_error (p_names r) h) as [ns|]; [|discriminate]. injection Hd as <-.
+  apply (pload_known _ _ h x); rewrite ?pname_tbl; [exact Hn|exact Ex|reflexivity].
+Qed.
